@@ -512,8 +512,13 @@ class Prog:
                 o.append("%s_union_vec_ref_t %s = %s_vec_create(B, %s, %d);" % (U, v, U, a, len(items)))
             else:
                 o.append("%s_union_vec_ref_t %s; if (%s_vec_start(B)) return -1;" % (U, v, U))
-                for (t, r, m) in items:
+                for j, (t, r, m) in enumerate(items):
+                    if style == 2 and j == len(items) // 2:
+                        # junk entries pushed / extended and truncated away in the middle: the remaining pushes must land behind element j-1
+                        o.append("if (!%s_vec_push(B, %s_as_NONE())) return -1; { %s_union_ref_t *p_ = %s_vec_extend(B, 2); if (!p_) return -1; p_[0] = %s_as_NONE(); p_[1] = %s_as_NONE(); } if (%s_vec_truncate(B, 3)) return -1;"
+                                 % (U, U, U, U, U, U, U))
                     if t == 0: o.append("if (!%s_vec_push(B, %s_as_NONE())) return -1;" % (U, U))
+                    elif style == 2 and j % 2: o.append("{ %s_union_ref_t u_ = %s_as_M%d(%s); if (!%s_vec_append(B, &u_, 1)) return -1; }" % (U, U, t, r, U))
                     else: o.append("if (!%s_vec_push(B, %s_as_M%d(%s))) return -1;" % (U, U, t, r))
                 o.append("%s = %s_vec_end(B);" % (v, U))
             o.append("if (!%s.type || !%s.value) return -1;" % (v, v))
